@@ -602,10 +602,24 @@ where
                 let running: Vec<u64> = sh.lock().unwrap().running.keys().copied().collect();
                 let live = h.live.clone();
                 let op = if h.blocked {
-                    match rng.below(10) {
+                    match rng.below(12) {
                         0..=3 => gen_dispatch(&mut rng, &mut next_id, nkeys),
                         4..=5 if !running.is_empty() => format!("finish {} {}", rng.pick(&running), rng.pick(&["ok", "ok", "ok", "err", "panic"])),
                         6 if !live.is_empty() => format!("kill {}", rng.pick(&live)),
+                        // messages that queue up behind the busy handler
+                        7 => {
+                            let n = rng.range(0, 4) as usize;
+                            if n != 0 {
+                                size = n;
+                            }
+                            format!("resize {n}")
+                        }
+                        8 => format!("settings {} -", gen_disc(&mut rng)),
+                        9 if rng.chance(1, 3) && !drained => {
+                            drained = true;
+                            "drain".to_string()
+                        }
+                        10 => format!("advance {}", rng.pick(&[1u64, 3, 50, 120])),
                         _ => {
                             let n = if rng.chance(1, 2) { size } else { rng.range(0, 4) as usize };
                             if n != 0 {
